@@ -5,6 +5,7 @@ package main
 import (
 	"fmt"
 	"go/ast"
+	"go/token"
 	"go/types"
 	"strconv"
 	"strings"
@@ -114,6 +115,13 @@ func (env *ExprEnv) callExpr(e *ast.CallExpr) Val {
 			return env.fail("typeis: unknown type %s", exprString(e.Args[1]))
 		}
 		return boolVal(sAnd(sNot(sEq(x.S, "0")), sEq(sApp(t.ifTag(), x.S), sInt(int64(t.eng.tagOf(T))))))
+	case "cast": // cast(x, *T): view an untyped reference (e.g. a recorded argument) as a pointer of the given type
+		x := arg(0)
+		T := env.resolveType(e.Args[1])
+		if T == nil {
+			return env.fail("cast: unknown type %s", exprString(e.Args[1]))
+		}
+		return Val{K: kindOfType(T), S: x.S, T: T}
 	case "asref": // payload of an interface value as a reference of the given pointer type
 		x := arg(0)
 		T := env.resolveType(e.Args[1])
@@ -179,7 +187,61 @@ func (env *ExprEnv) callExpr(e *ast.CallExpr) Val {
 		x := arg(0)
 		t.regArray("$now", "Int")
 		age := t.declareFun("$age", []string{"Int"}, "Int")
-		return boolVal(sAnd("(> "+x.S+" 1)", "(>= "+sApp(age, x.S)+" "+t.lookup(env.old, "$now")+")"))
+		return boolVal(sAnd("(> "+x.S+" 1)", "(>= "+sApp(age, x.S)+" "+t.lookup(env.old, "$now")+")", "(< "+sApp(age, x.S)+" "+t.lookup(env.st, "$now")+")"))
+	case "appb", "appi":
+		f := arg(0)
+		var as []Val
+		for i := 1; i < len(e.Args); i++ {
+			as = append(as, arg(i))
+		}
+		if fname == "appb" {
+			return boolVal(t.appTerm(f.S, as, KBool))
+		}
+		return intVal(t.appTerm(f.S, as, KInt))
+	case "cellof": // cellof(x, T): content of the variable cell x (captured variable) of type T
+		x := arg(0)
+		if lit, ok := e.Args[1].(*ast.BasicLit); ok {
+			// type given by its key string, e.g. "func(R, error) bool"
+			key, _ := strconv.Unquote(lit.Value)
+			k := KInt
+			if strings.HasPrefix(key, "func") {
+				k = KFunc
+			}
+			name := "cell:" + key
+			t.regArray(name, "(Array Int "+sortOfKind(k)+")")
+			return Val{K: k, S: sApp("select", t.lookup(env.st, name), x.S)}
+		}
+		T := env.resolveType(e.Args[1])
+		if T == nil {
+			return env.fail("cellof: unknown type %s", exprString(e.Args[1]))
+		}
+		return t.load(env.st, "cell:"+typeKey(T), x.S, "", T)
+	case "allocated":
+		x := arg(0)
+		t.regArray("$now", "Int")
+		age := t.declareFun("$age", []string{"Int"}, "Int")
+		return boolVal(sAnd("(> "+x.S+" 1)", "(< "+sApp(age, x.S)+" "+t.lookup(env.st, "$now")+")"))
+	case "boxT": // interface value holding a value of the type parameter
+		x := arg(0)
+		T := types.NewTypeParam(types.NewTypeName(token.NoPos, nil, "R", nil), types.NewInterfaceType(nil, nil))
+		return Val{K: KIface, S: sApp(t.mkIf(), sInt(int64(t.eng.tagOf(T))), x.S)}
+	case "zeroval":
+		return Val{K: KOpaque, S: t.declare("zero$T", "Int")}
+	case "fnid": // fnid("pkg/path.(*T).Method$1"): identity of a function's code
+		nm, _ := strconv.Unquote(exprString(e.Args[0]))
+		if !strings.Contains(nm, "/") {
+			nm = env.pkg + "." + nm
+		}
+		c := t.declare("fn:"+nm, "Int")
+		return Val{K: KFunc, S: c}
+	case "clofn":
+		f := arg(0)
+		return Val{K: KFunc, S: sApp(t.cloFn(), f.S)}
+	case "clobind": // clobind(f, i): i-th captured value of closure f
+		f := arg(0)
+		i := constInt(e.Args[1])
+		bf := t.declareFun(fmt.Sprintf("$clobind%d", i), []string{"Int"}, "Int")
+		return Val{K: KInt, S: sApp(bf, f.S)}
 	case "chanlen":
 		c := arg(0)
 		t.regArray("$chanlen", "(Array Int Int)")
